@@ -138,7 +138,7 @@ CHECKS = {
     technique='symbolic execution of the generated C++ (ShellSem), inductive step over selector states with symbolic claim reply, g++ replay'),
  'C11': dict(
     cat='model_checking', ref='DESIGN.md §2.3 (threads), §3 C11', engine='E3-shellsem-threads',
-    text='Threaded ShellSem: the clang AST of the generated claim/release lambdas, out-event rerouting, MultiClientSelector and MutexWrapped is executed by the abstract machine with one thread per client (claim/use/release cycles) and an environment thread raising component out-events on the dispatcher; thread switches at std::mutex::lock, dispatcher entry, log sink and external handlers; every schedule within the preemption bound is executed (stateless search, choices decided through the z3-backed path oracle). Per schedule: lock discipline of the selector state (data-race freedom), no deadlock, no dispatcher wait under the mutex, a granted client receives the out-events until it starts its own release. MutexWrapped protocol (exclusion, reset, scope exit) from its own AST. Known finding: a pending Deselect of the previous holder clears the new holder.',
+    text='Threaded ShellSem: the clang AST of the generated claim/release lambdas, out-event rerouting, MultiClientSelector and MutexWrapped is executed by the abstract machine with one thread per client (claim/use/release cycles) and an environment thread raising component out-events on the dispatcher; thread switches at std::mutex::lock, dispatcher entry, log sink and external handlers; every schedule within the preemption bound is executed (stateless search, choices decided through the z3-backed path oracle). Per schedule: data races by happens-before (vector clocks over mutexes and the dispatcher token; every location reachable from the selector object is watched), no deadlock, no dispatcher wait under the mutex, no C++ exception escaping on a thread, a granted client receives the out-events until it starts its own release. MutexWrapped protocol (exclusion, reset, scope exit) from its own AST. Known finding: a pending Deselect of the previous holder clears the new holder.',
     note='Bounds: 2 client threads + environment, quick: 1 cycle, 1 out-event, <= 2 preemptions (827 schedules per program); thorough: <= 3 preemptions, 2 cycles, 2 out-events. Dispatcher modelled as a token (closures serialised, run inline on the calling thread); sequentially consistent memory; the real Dezyne pump is outside the claim. Sampled schedules are re-executed on the g++-compiled program with gated real threads (same observable events required); findings are replayed there under the same schedule, races under ThreadSanitizer free runs; TSan free runs of every program must be silent.',
     technique='bounded schedule exploration of the generated C++ (clang AST -> threaded ShellSem abstract machine, z3-backed decisions), lockset check, gated-thread g++ replay + ThreadSanitizer'),
  'C09': dict(
